@@ -349,7 +349,27 @@ func runCrashCase(p eng.Profile, c crashCase, tornAll bool, res *crashOut) {
 	}
 
 	// --- B. torn tail: the log ends inside its last frame ------------------------------------------
-	if len(c.Torn) == 1 {
+	// Only a frame appended by a call can be torn by the death of the process. When nothing was journaled since the
+	// last compaction, the last frame of the log belongs to the finished, renamed compaction output; its records come
+	// in no specified order (an edge and its inverse are two records), so "the log without its last command" means
+	// different things in the model and in the file -- and no crash produces that image anyway.
+	appendedSinceCompaction := true
+	for i := len(c.Ops) - 1; i >= 0; i-- {
+		name, _ := c.Ops[i]["op"].(string)
+		if name == "RewriteAOF" {
+			appendedSinceCompaction = false
+			break
+		}
+		if r, _ := c.Ops[i]["res"].(string); r != "ok" {
+			continue
+		}
+		switch name {
+		case "Reopen", "Refine", "Vacuum", "GraphVacuum", "SaveSnapshot", "VGetConnections":
+			continue
+		}
+		break
+	}
+	if len(c.Torn) == 1 && appendedSinceCompaction {
 		live.E.AOF.Flush()
 		aof := filepath.Join(live.Dir, "kektordb.aof")
 		if off, size, ok := lastFrame(aof); ok {
